@@ -92,6 +92,8 @@ fn alphabet(fam: &Family, big: bool) -> Vec<Vec<f64>> {
         }
         // 1e20: finite in both widths, its square overflows f32;  1e160: likewise for f64 (and non-finite as f32)
         Family::PolyMat(s) => [1.0, 1e4, 1e-4, 3.0, 1e20, 1e160].iter().map(|a| vec![*a; s.p]).collect(),
+        // the FIRST entry (the state build() starts from) is outside the model's domain
+        Family::GuardExp => vec![vec![-1.0], vec![1.25], vec![2.5], vec![0.3], vec![0.0], vec![1.0]],
         Family::XExpSin => vec![vec![1.4, 2.1], vec![1.5, 2.0], vec![0.5, 3.0], vec![3.0, 0.7], vec![1.0, 1.0], vec![0.8, 5.0]],
         Family::Perm4 => vec![vec![0.6, 1.8, 0.4, 0.25], vec![0.5, 2.0, 0.3, 0.2], vec![1.0, 1.0, 1.0, 1.0], vec![0.2, 3.0, -0.5, 0.6], vec![0.5, 0.3, 2.0, 0.2], vec![1.5, 0.7, 0.1, 0.05]],
         Family::ExpN(n) => (0..4).map(|v| (0..*n).map(|j| 0.4 * 2.0f64.powi(j as i32) * (1.0 + 0.1 * v as f64)).collect()).collect(),
@@ -338,13 +340,21 @@ struct Explorer<'a, T: Sc> {
     bitwise_equal_twins: u64,
     tolerance_twins: u64,
     only_path: Option<Vec<usize>>,
+    /// replay: a second history that is executed as well (the one the violating history was compared with)
+    companion_path: Option<Vec<usize>>,
+    /// set while a history-dependence violation is reported: the history that reached the state first
+    compared_with: Option<Vec<usize>>,
     long_walk_steps: u64,
 }
 
 impl<'a, T: Sc> Explorer<'a, T> {
     fn case(&self) -> Value {
-        json!({"tier": self.ctx.args.tier, "scenario_index": self.sc_index, "history": self.hist, "scenario": scen_desc(self.sc),
-               "alphas_in_history": self.hist.iter().map(|&i| self.sc.alphas[i].clone()).collect::<Vec<_>>()})
+        let mut v = json!({"tier": self.ctx.args.tier, "scenario_index": self.sc_index, "history": self.hist, "scenario": scen_desc(self.sc),
+               "alphas_in_history": self.hist.iter().map(|&i| self.sc.alphas[i].clone()).collect::<Vec<_>>()});
+        if let Some(h0) = &self.compared_with {
+            v["compared_with_history"] = json!(h0);
+        }
+        v
     }
     fn violate(&self, prop: &str, sig: &str, detail: String) {
         let c = self.case();
@@ -396,6 +406,7 @@ impl<'a, T: Sc> Explorer<'a, T> {
                 if *k0 != key {
                     let h0 = h0.clone();
                     let first = first.clone();
+                    self.compared_with = Some(h0.clone());
                     self.violate("C10", "history-dependent-state", format!("state for alphabet entry {} differs between history {:?} and history {:?}", ai, h0, self.hist));
                     // the state reached first was validated by this property's oracle; a different state at the same
                     // parameters therefore carries values that are not the ones the property demands for these parameters
@@ -410,6 +421,7 @@ impl<'a, T: Sc> Explorer<'a, T> {
                     if differs {
                         self.violate(&p, "values-depend-on-history", format!("after history {:?} the reported values for alphabet entry {} differ from those validated after history {:?}", self.hist, ai, h0));
                     }
+                    self.compared_with = None;
                 }
             }
             None => {
@@ -751,7 +763,8 @@ impl<'a, T: Sc> Explorer<'a, T> {
         let prev_params: Vec<u64> = node[0].params().iter().map(|v| v.bits()).collect();
         for ai in 0..self.alphas_t.len() {
             if let Some(p) = &self.only_path {
-                if depth >= p.len() || p[depth] != ai {
+                let on = |q: &Vec<usize>| depth < q.len() && q[depth] == ai && q[..depth] == self.hist[..];
+                if !(on(p) || self.companion_path.as_ref().map(|q| on(q)).unwrap_or(false)) {
                     continue;
                 }
             }
@@ -843,10 +856,15 @@ impl<'a, T: Sc> Explorer<'a, T> {
     }
 }
 
+thread_local! {
+    /// replay only: the history a violating history was compared with
+    static COMPANION: std::cell::RefCell<Option<Vec<usize>>> = std::cell::RefCell::new(None);
+}
+
 fn explore<T: Sc>(ctx: &Ctx, sc: &Scen, sc_index: usize, prop: &str, only_path: Option<Vec<usize>>) {
     let env = Env::<T>::new(sc);
     let alphas_t: Vec<Vec<T>> = sc.alphas.iter().map(|a| a.iter().map(|&v| T::f(v)).collect()).collect();
-    let failing: Vec<bool> = sc.alphas.iter().map(|a| matches!(sc.domain, Some((_, idx, thr)) if !(a[idx] > thr))).collect();
+    let failing: Vec<bool> = sc.alphas.iter().map(|a| matches!(sc.domain, Some((_, idx, thr)) if !(a[idx] > thr)) || (matches!(sc.fam, Family::GuardExp) && !(a[0] > 0.0))).collect();
     let mut ex = Explorer {
         ctx,
         sc,
@@ -864,10 +882,13 @@ fn explore<T: Sc>(ctx: &Ctx, sc: &Scen, sc_index: usize, prop: &str, only_path: 
         bitwise_equal_twins: 0,
         tolerance_twins: 0,
         only_path,
+        companion_path: None,
+        compared_with: None,
         long_walk_steps: 0,
     };
-    if ex.failing[0] {
-        return; // the initial guess must be accepted
+    ex.companion_path = COMPANION.with(|c| c.borrow().clone());
+    if ex.failing[0] && !matches!(sc.fam, Family::GuardExp) {
+        return; // the initial guess must be accepted (except for the family whose point is a failing first evaluation)
     }
     let r = guarded(|| ex.run());
     if let Err(msg) = r {
@@ -1174,7 +1195,55 @@ fn scenarios(prop: &str, thorough: bool) -> Vec<Scen> {
                         }
                     }
                 }
+                // the very FIRST evaluation (the one build() performs) fails - through the model builder's own output-length
+                // check for builder-made models, through an error value for hand-written ones - and valid parameters follow
+                for prov in provs {
+                    for par in [false, true] {
+                        for f32_ in [false, true] {
+                            for (api, ycols) in [(Api::Single, vec![YCol::Noisy]), (Api::Mrhs, vec![YCol::Noisy, YCol::Off])] {
+                                if !thorough && f32_ && api == Api::Mrhs {
+                                    continue;
+                                }
+                                extra.push(mk(&Family::GuardExp, 7, prov, f32_, par, api, ycols, if par { WKind::Ramp } else { WKind::None }, EpsKind::Default));
+                            }
+                        }
+                    }
+                }
                 v.extend(extra);
+            }
+            // a threshold BELOW machine epsilon is a legal configuration: singular values between it and machine epsilon are kept
+            for f32_ in [false, true] {
+                for par in [false, true] {
+                    if prop == "C11" && !par {
+                        continue;
+                    }
+                    for eps in [EpsKind::Val(1e-30), EpsKind::Val(0.0), EpsKind::Val(-1e-25)] {
+                        for (api, ycols) in [(Api::Single, vec![YCol::Custom(vec![2.0, 3e-18, 0.5])]), (Api::Mrhs, vec![YCol::Custom(vec![2.0, 3e-18, 0.5]), YCol::Custom(vec![-1.0, 1e-18, 4.0])])] {
+                            let mut s = mk(&polymat_diag(1e-18), 3, Prov::Hand, f32_, par, api, ycols, WKind::None, eps);
+                            s.exact = true;
+                            s.alphas = vec![vec![1.0], vec![3.0], vec![1.0], vec![0.5]];
+                            v.push(s);
+                        }
+                    }
+                }
+            }
+            // every entry finite, but SUMS of entries (and of squares) overflow: 8 x 2, entries +-alpha and +-alpha/2
+            {
+                let pat: Vec<f64> = vec![1.0, 0.5, -1.0, 0.5, 1.0, -0.5, 0.5, 1.0, 1.0, 1.0, -0.5, 1.0, 1.0, 0.5, 0.5, -1.0];
+                let fam = Family::PolyMat(Arc::new(PolySpec { n: 8, m: 2, p: 1, a0: vec![0.0; 16], a: vec![pat], b: vec![vec![0.0; 16]] }));
+                for f32_ in [false, true] {
+                    for par in [false, true] {
+                        if prop == "C11" && !par {
+                            continue;
+                        }
+                        for (api, ycols) in [(Api::Single, vec![YCol::Custom(vec![1e30, -2e30, 0.5e30, 3e30, 1e30, 1.5e30, -1e30, 2e30])]), (Api::Mrhs, vec![YCol::Custom(vec![1e30, -2e30, 0.5e30, 3e30, 1e30, 1.5e30, -1e30, 2e30]), YCol::Custom(vec![2e30, 1e30, 1e30, -1e30, 0.0, 1e30, 3e30, 1e30])])] {
+                            let mut s = mk(&fam, 8, Prov::Hand, f32_, par, api, ycols, WKind::None, EpsKind::Default);
+                            // (the f64 analogue, entries of 2e307, is beyond the f64 arithmetic of the reference oracles themselves)
+                            s.alphas = vec![vec![1.0], vec![1e38], vec![3.0], vec![1e38], vec![2e37]];
+                            v.push(s);
+                        }
+                    }
+                }
             }
         }
         "C06" => {
@@ -1288,6 +1357,13 @@ fn main() {
             let path: Vec<usize> = v["history"].as_array().unwrap().iter().map(|x| x.as_u64().unwrap() as usize).collect();
             let mut sc = list[idx].clone();
             sc.depth = path.len();
+            if let Some(h0) = v.get("compared_with_history").and_then(|h| h.as_array()) {
+                let h0: Vec<usize> = h0.iter().map(|x| x.as_u64().unwrap() as usize).collect();
+                sc.depth = sc.depth.max(h0.len());
+                COMPANION.with(|c| *c.borrow_mut() = Some(h0));
+            }
+            // the same heap regime as the exploration: fresh memory NaN-poisoned (an element that is never written shows)
+            vpmc::poison::set_poison(Some(0xFF));
             if sc.f32_ {
                 explore::<f32>(&ctx, &sc, idx, &prop, Some(path));
             } else {
